@@ -49,11 +49,23 @@ namespace vh
    {
       return *names_ptr();
    }
-   // custom error_message strings (limit_depth / limit_bytes / raise_message) -> id
+   // custom error_message strings (limit_depth / limit_bytes / raise_message) -> id; the ids of limit_* are global,
+   // those of raise_message and of per-rule messages belong to one grammar (Tag)
    inline std::map< std::string, int >& messages()
    {
       static std::map< std::string, int > m;
       return m;
+   }
+   template< typename Tag >
+   std::map< std::string, int >& messages_for()
+   {
+      static std::map< std::string, int > m;
+      return m;
+   }
+   inline std::map< std::string, int >*& messages_ptr()
+   {
+      static std::map< std::string, int >* p = nullptr;
+      return p;
    }
 
    struct step_budget_exceeded
@@ -311,6 +323,49 @@ namespace vh
       }
    };
 
+   // Action classes named directly by the rules apply< A... > / if_apply< R, A... > (not reached through the action family and
+   // not through the control): they log their own call.  Same decision formulas as the generated rule actions.
+   template< typename ActionInput, typename... States >
+   void ract_log( const int id, const ActionInput& in, const States&... st )
+   {
+      emit( "rp", id );
+      emit_pos( in.position() );
+      emit_pos( in.input().position() );
+      emit( "", state_depth( st... ) );
+      g_out += '\n';
+   }
+
+   template< typename Tag, int Id, int ThrowMod, bool ThrowStd >
+   struct ract_void
+   {
+      template< typename ActionInput, typename... States >
+      static void apply( const ActionInput& in, States&&... st )
+      {
+         ract_log( Id, in, st... );
+         constexpr act_spec s{ 0, ThrowMod, ThrowStd };
+         if( act_throws( s, Id, in.position().byte, in.input().position().byte ) ) {
+            act_throw( s, Id );
+         }
+      }
+   };
+
+   template< typename Tag, int Id, int VetoMod, int ThrowMod, bool ThrowStd >
+   struct ract_bool
+   {
+      template< typename ActionInput, typename... States >
+      static bool apply( const ActionInput& in, States&&... st )
+      {
+         ract_log( Id, in, st... );
+         constexpr act_spec s{ VetoMod, ThrowMod, ThrowStd };
+         const std::size_t b = in.position().byte;
+         const std::size_t e = in.input().position().byte;
+         if( act_throws( s, Id, b, e ) ) {
+            act_throw( s, Id );
+         }
+         return !act_vetoes( s, Id, b, e );
+      }
+   };
+
    // Observation control.  `match` brackets every Control< Rule >::match invocation,
    // including hidden internal:: rules; the hooks log what the library calls.
    // events of the second control family (change_control / control<> scoping, C13) carry a mark after the tag
@@ -472,9 +527,16 @@ namespace vh
             }
          }
          else {
-            const auto it = messages().find( msg );
-            if( it != messages().end() ) {
-               id = it->second;
+            const auto* pm = messages_ptr();
+            const auto jt = pm ? pm->find( msg ) : messages().end();
+            if( pm && ( jt != pm->end() ) ) {
+               id = jt->second;
+            }
+            else {
+               const auto it = messages().find( msg );
+               if( it != messages().end() ) {
+                  id = it->second;
+               }
             }
          }
          // C05: what() == source:line:column: message
@@ -545,6 +607,7 @@ namespace vh
          std::memcpy( buf, bytes.data(), n );
       }
       names_ptr() = &names_for< Tag >();
+      messages_ptr() = &messages_for< Tag >();
       g_out.clear();
       g_steps = 0;
       g_oob = 0;
@@ -634,6 +697,7 @@ namespace vh
          std::memcpy( buf, bytes.data(), n );
       }
       names_ptr() = &names_for< Tag >();
+      messages_ptr() = &messages_for< Tag >();
       g_out.clear();
       g_steps = 0;
       g_oob = 0;
